@@ -180,6 +180,46 @@ func c02Spaces(tier string) []*explore.Space {
 			p4 = append(p4, hostCase{gen.AbsP(gen.DSlash(), gen.Ch("*", a, b)), gen.AbsP(gen.DSlash(), gen.Ch("*"))})
 		}
 	}
+	// P5: existence of two-step paths over ALL axis pairs, and of paths whose
+	// last step carries a nested predicate (nesting depth 2)
+	var p5 []hostCase
+	hosts5 := []gen.Step{gen.Ch("*"), gen.St("descendant-or-self", "node()"), gen.St("descendant", "*"), gen.St("following", "node()"), gen.St("ancestor-or-self", "node()"), gen.Ch("node()")}
+	for _, h := range hosts5 {
+		for _, a1 := range gen.Axes {
+			for _, a2 := range gen.Axes {
+				for _, tt := range [][2]string{{"node()", "node()"}, {"a", "node()"}, {"*", "a"}} {
+					p5 = append(p5, hostCase{relPath(withPred(h, relPath(gen.St(a1, tt[0]), gen.St(a2, tt[1])))), relPath(h)})
+				}
+				p5 = append(p5, hostCase{relPath(withPred(h, gen.F("not", relPath(gen.St(a1, "node()"), gen.St(a2, "a"))))), relPath(h)})
+			}
+		}
+		for _, inner := range sm {
+			for _, first := range []gen.Step{gen.Ch("*"), gen.Ch("a"), gen.St("descendant", "*"), gen.St("following-sibling", "*"), gen.DotDot()} {
+				for _, second := range []gen.Step{gen.Ch("*"), gen.Ch("node()"), gen.At("*"), gen.St("descendant", "node()")} {
+					p5 = append(p5, hostCase{relPath(withPred(h, relPath(first, withPred(second, inner)))), relPath(h)})
+				}
+			}
+		}
+	}
+	// P6: comparisons whose BOTH operands depend on the candidate (count()
+	// against count(), path against path), the left one walking a long axis
+	var p6 []hostCase
+	for _, h := range hosts5 {
+		for _, ax := range gen.Axes {
+			lefts := []gen.Expr{gen.F("count", relPath(gen.St(ax, "node()"))), gen.F("count", relPath(gen.St(ax, "a"))), relPath(gen.St(ax, "node()")), relPath(gen.St(ax, "*", relPath(gen.At("*"))))}
+			rights := []gen.Expr{gen.F("count", relPath(gen.Ch("*"))), gen.F("count", relPath(gen.At("*"))), relPath(gen.Dot()), relPath(gen.At("a")), relPath(gen.Ch("a")), gen.F("string-length", relPath(gen.Dot()))}
+			for _, l := range lefts {
+				for _, r := range rights {
+					for _, op := range []string{"=", "!=", ">"} {
+						if _, isPath := l.(*gen.Path); isPath && op == ">" {
+							continue
+						}
+						p6 = append(p6, hostCase{relPath(withPred(h, gen.B(op, l, r))), relPath(h)})
+					}
+				}
+			}
+		}
+	}
 	t3 := func() []*doc.Tree { return uniT(3) }
 	t4 := func() []*doc.Tree { return uniT(4) }
 	if tier == "thorough" {
@@ -188,6 +228,8 @@ func c02Spaces(tier string) []*explore.Space {
 			hostSpace("P2xT3", "representative hosts [not/and/or over existence atoms] x T(<=3)", p2, t3, "C02"),
 			hostSpace("P3xT4", "prefix/host[atom], absolute+relative, (host)[atom] x T(<=4)", p3, t4, "C02"),
 			hostSpace("P4xT4", "two predicates, nested predicates x T(<=4)", p4, t4, "C02"),
+			hostSpace("P5xT4", "existence of two-step paths over all 144 axis pairs, paths with a nested predicate on the last step x T(<=4)", p5, t4, "C02"),
+			hostSpace("P6xT4", "comparisons with two candidate-dependent operands (count vs count, path vs path) x T(<=4)", p6, t4, "C02"),
 		}
 	}
 	// quick: P2 restricted to a fixed 1/8 stratum (every 8th compound)
@@ -208,7 +250,17 @@ func c02Spaces(tier string) []*explore.Space {
 		hostSpace("P2/8xT3", "fixed stratum (every 8th) of hosts [not/and/or over existence atoms] x T(<=3)", p2q, t3, "C02"),
 		hostSpace("P3/4xT3", "fixed stratum (every 4th) of prefix/host[atom] and (host)[atom] x T(<=3)", p3q, t3, "C02"),
 		hostSpace("P4/2xT3", "fixed stratum (every 2nd) of two-predicate and nested-predicate hosts x T(<=3)", p4q, t3, "C02"),
+		hostSpace("P5/3xT3", "fixed stratum (every 3rd) of: existence of two-step paths over all 144 axis pairs, paths with a nested predicate on the last step x T(<=3)", strideCases(p5, 3), t3, "C02"),
+		hostSpace("P6/2xT3", "fixed stratum (every 2nd) of comparisons with two candidate-dependent operands x T(<=3)", strideCases(p6, 2), t3, "C02"),
 	}
+}
+
+func strideCases(c []hostCase, k int) []hostCase {
+	var out []hostCase
+	for i := 0; i < len(c); i += k {
+		out = append(out, c[i])
+	}
+	return out
 }
 
 func init() {
